@@ -15,6 +15,20 @@ Theorem c12_isdisjoint_spec :
 Proof. exact isdisjoint_spec. Qed.
 Print Assumptions c12_isdisjoint_spec.
 
+(* what a link is: an unordered pair of successive ROADMs of the path; walking the same sites the other way round
+   uses the same links (a link and its opposite direction are the same link) *)
+Theorem c12_links_spec :
+  forall n p a b,
+  In (a, b) (links n p) <->
+  a <= b /\ exists l1 l2, roadms n p = l1 ++ a :: b :: l2 \/ roadms n p = l1 ++ b :: a :: l2.
+Proof. exact links_spec. Qed.
+Print Assumptions c12_links_spec.
+
+Theorem c12_links_rev :
+  forall n p l, In l (links n (rev p)) <-> In l (links n p).
+Proof. exact links_rev. Qed.
+Print Assumptions c12_links_rev.
+
 (* the validator that judges the returned set of paths reflects the property *)
 Theorem c12_disjoint_ok_reflects :
   forall n paths groups,
